@@ -106,3 +106,29 @@ Example C02_function_text_example :
   /\ FuncFmt.f_args (FuncFmt.emit_function true doc ps) = FuncFmtProofs.sig_of true ps
   /\ FuncFmt.parse_function (FuncFmt.emit_function true doc ps) = (doc, FuncFmtProofs.expected ps).
 Proof. vm_compute. repeat split; reflexivity. Qed.
+
+(* ---- reading an argparse function back: one add_argument(...) call (Model/ArgRead.v, a transcription of parse_out_param with
+   _handle_value / _handle_keyword, compared with the code on generated calls each run).  For EVERY call that is read at all: a default
+   that is written is the parameter's default -- 0, 0.0, False and '' included; the members of `choices` become a Literal in the order
+   written; a plainly typed option is Optional exactly when it is not required.  (Members that are not strings under a type other
+   than str make the reader raise: C02_argparse_int_choices_raise, the recorded behaviour.) *)
+From CDD Require ArgRead ArgReadProofs.
+Theorem C02_argparse_written_default_is_kept : forall c d r, ArgRead.a_default c = Some d -> ArgRead.parse_out_param c = Some r ->
+  ArgRead.r_default r = Some (ArgRead.AVal d).
+Proof. exact ArgReadProofs.written_default_is_kept. Qed.
+Print Assumptions C02_argparse_written_default_is_kept.
+Theorem C02_argparse_choices_in_order : forall c elts, ArgRead.a_type c = None -> ArgRead.a_action c = None -> ArgRead.a_choices c = Some elts ->
+  ArgRead.a_required c = true ->
+  option_map ArgRead.r_typ (ArgRead.parse_out_param c) = Some (s2l "Literal[" ++ join (s2l ", ") (map ArgReadProofs.quoted elts) ++ s2l "]").
+Proof. exact ArgReadProofs.choices_in_order. Qed.
+Print Assumptions C02_argparse_choices_in_order.
+Theorem C02_argparse_optional_iff_not_required : forall c t, ArgRead.a_type c = Some t -> ArgReadProofs.plain_typ t = true ->
+  ArgRead.a_choices c = None -> ArgRead.a_action c = None ->
+  option_map ArgRead.r_typ (ArgRead.parse_out_param c) = Some (if ArgRead.a_required c then t else s2l "Optional[" ++ t ++ s2l "]").
+Proof. exact ArgReadProofs.optional_iff_not_required. Qed.
+Print Assumptions C02_argparse_optional_iff_not_required.
+Example C02_argparse_int_choices_raise :
+  ArgRead.parse_out_param {| ArgRead.a_name := s2l "n"; ArgRead.a_type := Some (s2l "int"); ArgRead.a_help := None; ArgRead.a_required := true;
+                     ArgRead.a_default := None; ArgRead.a_action := None;
+                     ArgRead.a_choices := Some [{| ArgRead.v_repr := s2l "2"; ArgRead.v_str := s2l "2"; ArgRead.v_empty := false; ArgRead.v_is_str := false |}] |} = None.
+Proof. exact ArgReadProofs.int_choices_raise. Qed.
